@@ -118,8 +118,22 @@ def gen_overlay(rng, nw, W, H, bottom):
     return ["overlay", top, bottom, align, rng.randrange(1, W + 1), valign, rng.randrange(1, H + 1)]
 
 
+def is_status(layout):
+    return (layout[0] == "hpile" and len(layout[1]) == 2 and layout[1][0][0] is None
+            and layout[1][1][0] == 1 and layout[1][1][1][0] == "fill")
+
+
 def mutate(rng, layout, nw, W, H):
     """the next layout of a history: small changes are what exposes stale views"""
+    if is_status(layout):
+        # a status line below the body: changing it gives a new top canvas while the image widgets neither
+        # move nor re-render (their canvases stay cached)
+        inner, st = layout[1][0][1], layout[1][1][1]
+        if rng.random() < 0.45:
+            st = ["fill", rng.choice([c for c in "01234" if c != st[1]])]
+        else:
+            inner = mutate(rng, inner, nw, W, H - 1)
+        return ["hpile", [[None, inner], [1, st]]]
     r = rng.random()
     k = layout[0]
     if k == "fcols" and r < 0.85:
@@ -199,6 +213,9 @@ def gen_script(rng: random.Random, tier: str = "quick"):
         sc["steps"] += [{"op": o} for o in rng.choice([["start"], ["clear"], ["stop", "start"], ["clear", "stop", "start"]])]
     layout = (gen_caption_columns(rng, nw, W, H) if term != "other" and rng.random() < 0.25
               else gen_box(rng, nw, W, H))
+    if H >= 4 and rng.random() < 0.4:
+        layout = ["hpile", [[None, (gen_caption_columns(rng, nw, W, H - 1) if term != "other" and rng.random() < 0.25
+                                    else gen_box(rng, nw, W, H - 1))], [1, ["fill", "0"]]]]
     n = rng.randrange(5 if layout[0] == "fcols" else 2, 9 if tier == "quick" else 14)
     for i in range(n):
         r = rng.random()
@@ -209,23 +226,34 @@ def gen_script(rng: random.Random, tier: str = "quick"):
             # what matters is the next redraw, where images move
             sc["steps"].append({"op": "clear"})
             sc["steps"].append({"op": "draw", "same": True})
-        elif i and r < 0.11:
+        elif i and r < 0.12 and i < n - 1:
+            # SIGWINCH pending: the layout changes and a frame is drawn (and discarded) before the 'window
+            # resize' input is processed; then the size turns out unchanged (same cached canvas) or not (new one)
+            layout = mutate(rng, layout, nw, W, H)
+            sc["steps"] += [{"op": "sigwinch"}, {"op": "draw", "layout": layout}, {"op": "resize_done"}]
+            if rng.random() < 0.7:
+                sc["steps"].append({"op": "draw", "same": True})
+        elif i and r < 0.14:
             sc["steps"].append({"op": "stop"})
             sc["steps"].append({"op": "start"})
-        elif i and r < 0.15:
+        elif i and r < 0.17:
             sc["steps"].append({"op": "draw", "same": True})
         elif i == n - 1 and r < 0.25:
             # a canvas of the wrong size makes the base class raise: only as the last step (what the
             # screen shows after the caller broke draw_screen's precondition is not judged)
             sc["steps"].append({"op": "draw", "layout": layout, "badsize": True})
-        elif i and r < 0.21 and not any(st["op"] == "clear_images" for st in sc["steps"]):
+        elif i and r < 0.25 and not any(st["op"] == "clear_images" for st in sc["steps"]):
             # at most one explicit clear per history (docs/C18.md: the 3-cycle of disguises collides when a
             # widget is cleared 3 times between two emissions of a row; a redraw of an unchanged — possibly
             # cached — canvas emits nothing, so "between two redraws" cannot be decided when generating)
-            sc["steps"].append({"op": "clear_images",
-                                "widgets": [rng.randrange(nw) for _ in range(rng.choice([0, 1, 2, 3, 3]))]})
+            sc["steps"].append({"op": "clear_images", "now": rng.random() < 0.5,
+                                "widgets": [rng.randrange(nw) for _ in range(rng.choice([0, 0, 0, 1, 2, 3]))]})
         else:
-            if i:
+            if i and sc["steps"][-1]["op"] == "clear_images" and is_status(layout) and rng.random() < 0.7:
+                # right after an explicit clear: only the status line changes — the image widgets neither
+                # move nor re-render, yet their lines must be sent again
+                layout = ["hpile", [layout[1][0], [1, ["fill", rng.choice([c for c in "01234" if c != layout[1][1][1][1]])]]]]
+            elif i:
                 layout = mutate(rng, layout, nw, W, H)
             sc["steps"].append({"op": "draw", "layout": layout})
     return sc
